@@ -22,8 +22,8 @@ RULE = ("baseline dilation scenarios (dilate at a random point, subchannel traff
         "connection, no timer. Non-trivial = close was issued while a Manager existed; distinct = "
         "(Manager state, Connector state, closer, role, scenario) at the moment of close.")
 ASSUMPTIONS = ["Noise stand-in", "bounded progress: 300 virtual seconds after close()"]
-FLOORS = {"quick": {"closes_with_manager": 500, "old_peer_cases": 40, "closes_after_bulk_write": 40, "closes_with_peer_paused": 15, "late_dilate_cases": 30, "closes_with_a_running_producer_on_a_saturated_link": 4},
-          "thorough": {"closes_with_manager": 20000, "old_peer_cases": 1500, "closes_after_bulk_write": 2000, "closes_with_peer_paused": 400, "late_dilate_cases": 1000, "closes_with_a_running_producer_on_a_saturated_link": 100}}
+FLOORS = {"quick": {"closes_with_manager": 500, "old_peer_cases": 40, "closes_after_bulk_write": 40, "closes_with_peer_paused": 15, "late_dilate_cases": 30, "closes_with_a_running_producer_on_a_saturated_link": 4, "closes_after_a_silent_connection_with_unsent_data_was_given_up": 20},
+          "thorough": {"closes_with_manager": 20000, "old_peer_cases": 1500, "closes_after_bulk_write": 2000, "closes_with_peer_paused": 400, "late_dilate_cases": 1000, "closes_with_a_running_producer_on_a_saturated_link": 100, "closes_after_a_silent_connection_with_unsent_data_was_given_up": 700}}
 
 
 def cases(tier, seed, prep=None):
@@ -59,6 +59,12 @@ def cases(tier, seed, prep=None):
                     "streaming": True})
     for i in range(40 if q else 1200):
         out.append({"kind": "late-dilate", "seed": b + 9000 + i, "when": ["closing", "closed"][i % 2], "peer_dilates": i % 4 < 3})
+    # close() after the library itself has given a connection up that still held unsent data: a peer that went silent
+    # (Leader: two ping intervals without a pong; Follower: told to reconnect by the Leader) with the writer's kernel
+    # buffer full - the very situation the give-up paths exist for
+    for i in range(32 if q else 1000):
+        out.append({"kind": "gave-up", "seed": b + 11000 + i, "writer": ["leader", "follower", "both"][i % 3], "closer": ["leader", "follower"][(i // 3) % 2],
+                    "wait": [16.0, 0, 18.0, 0, 25.0, 40.0][(i // 6) % 6], "bulk": [200000, 600000, 1500000][i % 3]})
     for i in range(60 if q else 2000):
         out.append({"kind": "oldpeer", "seed": b + 5000 + i})
     foreign = [{}, {"app_versions": {}}, {"abilities": []}, {"can-dilate": []}, {"can-dilate": ["x"]}, {"app_versions": {"k": 1}, "can-dilate": ["2", "x"]}]
@@ -146,9 +152,102 @@ def run_late_dilate(spec):
             "sets": {}, "sample": {"spec": spec, "outcome": outcome}}
 
 
+def run_gave_up(spec):
+    world = World(spec["seed"])
+    rng = world.work_rng
+    r = world.reactor
+    dp = DilatedPair(world, ping_interval=5.0, relay=False)
+    drv = ScriptDriver(dp, rng, names=("p0",), max_opens=0, max_writes=0, late_listen=0.0, close_prob=0.0)
+    sch = Scheduler(world, drv, strategy=rng.choice(["random", "netfirst"]), chunking="whole")
+    sch.run(3000, until=dp.both_connected)
+    lead = dp.leader()
+    if lead is None or not dp.both_connected():
+        world.finish()
+        return {"inconclusive": "the pair did not connect", "violations": []}
+    foll = "B" if lead == "A" else "A"
+    rec = drv.open(lead, "p0")
+    sch.run(1500, until=lambda: rec["proto"] is not None and bool(drv.factories[foll]["p0"].built))
+    if rec["proto"] is None or not drv.factories[foll]["p0"].built:
+        world.finish()
+        return {"inconclusive": "subchannel did not open", "violations": []}
+    ends = {lead: rec["proto"], foll: drv.factories[foll]["p0"].built[0][1]}
+    sch.drain(1.0, 800)
+    link = dp.selected_link()
+    if link is None:
+        world.finish()
+        return {"inconclusive": "no selected link", "violations": []}
+    r.blackhole_sndbuf = rng.choice([2 ** 14, 2 ** 16, 2 ** 18])     # a silent peer acknowledges nothing: the send buffer fills
+    r.blackhole(link)
+    writers = [lead, foll] if spec["writer"] == "both" else [lead if spec["writer"] == "leader" else foll]
+    for n in writers:
+        drv.write(ends[n], b"bulk:" + rng.randbytes(spec["bulk"]))
+    t0 = r.seconds()
+    states = set()
+
+    def hook():
+        states.add("%s/%s" % (dp.mstate(lead), dp.mstate(foll)))
+    sch.hook = hook
+    if spec["wait"]:
+        sch.drain(spec["wait"] + rng.random(), 60000)
+    else:
+        # close() a few steps after the first sign that somebody has given the connection up
+        sch.drain(30.0, 60000, until=lambda: any(not s_.startswith("CONNECTED/CONNECTED") for s_ in states))
+        sch.drain(30.0, rng.randint(0, 40))
+    who = lead if spec["closer"] == "leader" else foll
+    other = foll if who == lead else lead
+    app = dp.apps[who]
+    mgr = dp.manager(who)
+    info = {"manager_state": dp.mstate(who), "peer_manager_state": dp.mstate(other), "role": spec["closer"], "waited": round(r.seconds() - t0, 2),
+            "states_seen_while_waiting": sorted(states)}
+    gave_up = any(not s_.startswith("CONNECTED/CONNECTED") for s_ in states)
+    app.close()
+    end = sch.drain(300.0, 60000, until=lambda: app.closed)
+    if end == "steps":
+        world.finish()
+        return {"inconclusive": "step cap reached in the final drain", "violations": []}
+    viol = []
+
+    def wit(extra=None):
+        w = {"spec": spec, "at_close": info, "states_now": {n: dp.mstate(n) for n in "AB"}, "verdict": app.close_results,
+             "netlog_tail": [x for x in r.netlog if x[0] in ("cut", "blackhole", "lost", "dial", "lose")][-16:]}
+        if extra:
+            w.update(extra)
+        return w
+    if not app.closed:
+        viol.append({"key": "C17/close-never-completes/after-the-silent-connection-was-given-up/manager=%s" % info["manager_state"],
+                     "msg": "%s (%s): the peer connection went silent with unsent data, %.0f virtual s later (Manager %s) close() was issued and did not complete within 300 virtual s (Manager now %s)" % (
+                         who, spec["closer"], info["waited"], info["manager_state"], dp.mstate(who)), "witness": wit()})
+    else:
+        v = app.close_results[0]
+        if v not in ("happy", "LonelyError"):
+            viol.append({"key": "C17/close-verdict/" + v, "msg": "%s closed with %s" % (who, v), "witness": wit()})
+        sch.drain(1.0, 3000)
+        for (kind, what, direction, state) in owned_leaks(world, dp, who, mgr)[:2]:
+            viol.append({"key": "C17/leak/%s/%s/%s" % (kind, direction, state), "msg": "%s closed (%s) after a given-up connection; afterwards it still owns %s %s (%s, %s)" % (
+                who, v, kind, what, direction, state), "witness": wit()})
+    dp.apps[other].close()
+    end2 = sch.drain(300.0, 60000, until=lambda: dp.apps[other].closed)
+    sch.drain(1.0, 3000)
+    if end2 != "steps":
+        if not dp.apps[other].closed:
+            viol.append({"key": "C17/peer-close-never-completes/manager=%s" % dp.mstate(other),
+                         "msg": "%s (closing second, Manager %s) did not complete" % (other, dp.mstate(other)), "witness": wit()})
+        else:
+            mo = dp.manager(other)
+            for (kind, what, direction, state) in owned_leaks(world, dp, other, mo)[:1]:
+                viol.append({"key": "C17/leak/%s/%s/%s" % (kind, direction, state), "msg": "%s (closing second) still owns %s %s (%s, %s)" % (other, kind, what, direction, state), "witness": wit()})
+    world.finish()
+    return {"violations": viol, "nontrivial": ["gave-up", info["manager_state"], spec["closer"], spec["writer"], spec["seed"]],
+            "counters": {"closes_with_manager": 1, "closes_after_a_silent_connection_with_unsent_data_was_given_up": int(gave_up), "closed": int(app.closed)},
+            "sets": {"states_at_close": ["%s/gave-up" % info["manager_state"]], "gave_up_state_pairs_seen": sorted(states)},
+            "sample": {"spec": spec, "at_close": info, "verdict": app.close_results}}
+
+
 def run_case(spec):
     if spec["kind"] == "oldpeer":
         return run_oldpeer(spec)
+    if spec["kind"] == "gave-up":
+        return run_gave_up(spec)
     if spec["kind"] == "late-dilate":
         return run_late_dilate(spec)
     world = World(spec["seed"])
